@@ -15,12 +15,12 @@ import (
 // critical section of the real code happens exactly when the event says.
 
 type brkCfg struct {
-	TripKind  string `json:"tripKind"` // "fail" : fail>=k ; "failcur": fail+cur>=k
-	TripK     int    `json:"tripK"`
-	ResetK    int    `json:"resetK"`
-	BackKind  string `json:"backKind"` // "const" d ; "lin" d*(fail+1) ; "cur" d*(cur+1)
-	BackD     int64  `json:"backD"`
-	Max       int    `json:"max"` // HalfOpenConcurrentRequests as configured (0 => default 1)
+	TripKind string `json:"tripKind"` // "fail" : fail>=k ; "failcur": fail+cur>=k
+	TripK    int    `json:"tripK"`
+	ResetK   int    `json:"resetK"`
+	BackKind string `json:"backKind"` // "const" d ; "lin" d*(fail+1) ; "cur" d*(cur+1)
+	BackD    int64  `json:"backD"`
+	Max      int    `json:"max"` // HalfOpenConcurrentRequests as configured (0 => default 1)
 }
 
 type brkEv struct {
@@ -41,12 +41,12 @@ type brkCall struct {
 }
 
 type brkRun struct {
-	b      *circuit.Breaker
-	clk    *clock.Mock
-	mu     sync.Mutex
-	hooks  [][]interface{}
-	calls  map[int]*brkCall
-	t0     int64
+	b     *circuit.Breaker
+	clk   *clock.Mock
+	mu    sync.Mutex
+	hooks [][]interface{}
+	calls map[int]*brkCall
+	t0    int64
 }
 
 func newBrkRun(cfg brkCfg) *brkRun {
